@@ -3,7 +3,7 @@
 
    Parameters: [bits] = the template argument Bits, [w] = numeric_limits<WordType>::digits
    (etl::bitset<Bits> is basic_bitset<Bits, size_t>, i.e. w = 64).  A storage word is an [N];
-   every static_cast<WordType>(...) of the source is the explicit truncation [trunc w].
+   every static_cast<WordType>(...) of the source is the explicit truncation [trunc mx].
    The member array [_words] is a [list N] (always of length num_words).  Bit positions and
    list indices are [nat]; the value handed to the word helpers as "pos" is an [N] like in the
    code (offset_in_word returns a WordType).  No proofs here. *)
@@ -23,7 +23,7 @@ Definition trunc (mx : N) (x : N) : N := N.land x mx.
 Definition wnot (mx : N) (x : N) : N := N.ldiff mx x.
 
 (* the TETL_PRECONDITION(pos < digits) of the four helpers: basic_bitset only ever passes
-   offset_in_word(pos), which is below the width (Proofs: offset_lt), so it is a separate
+   offset_in_word(pos), which is below the width (theorem C17_inner_preconditions), so it is a separate
    predicate here and the helpers themselves are total *)
 Definition bit_pos_ok (w : nat) (pos : N) : bool := N.ltb pos (N.of_nat w).
 
